@@ -10,6 +10,7 @@ from vx.extract import Lost, code_mask, match_close
 NAME = "codec_dec"
 PROPS = ["C12", "C17"]
 RLIMIT = 60
+F = ["C12"]  # functional clauses (C17 view keeps only the representation invariant and safety)
 
 
 def r1_for_to_loop(it, fn):
@@ -70,7 +71,8 @@ def build(u):
     new = u.item("src/decoder.rs", "impl<'a> MappingsDecoder<'a>")
     new.sig("new", [
         ("new.requires", "contract", "requires mappings.spec_bytes().len() < u32::MAX - 1"),
-        ("new.ensures", "contract", "ensures r.inv(), r.ds() == ds0(), r.rem() == mappings.spec_bytes()"),
+        ("new.inv", "contract", "ensures r.inv(),"),
+        ("new.ensures", "contract", "  r.ds() == ds0(), r.rem() == mappings.spec_bytes(),", F),
     ], ret="r")
     u.raw(GLUE, ("glue", NAME))
     it = u.item("src/decoder.rs", "impl Iterator for MappingsDecoder<'_>")
@@ -79,25 +81,25 @@ def build(u):
     r1_for_to_loop(it, "next")
     it.sig("next", [
         ("next.requires", "contract", "requires old(self).inv()"),
+        ("next.inv", "contract", "ensures final(self).inv(),"),
         ("next.ensures", "contract",
-         "ensures final(self).inv(),\n"
          "  ({ let (e, s, k) = dec_next(old(self).ds(), old(self).rem());\n"
-         "     r == e && final(self).ds() == s && k <= old(self).rem().len() && final(self).rem() == old(self).rem().skip(k as int) })"),
+         "     r == e && final(self).ds() == s && k <= old(self).rem().len() && final(self).rem() == old(self).rem().skip(k as int) }),", F),
     ], ret="r")
     it.loop("next", 1, [
-        ("next.loop1.inv", "contract",
-         "invariant self.inv(),\n"
+        ("next.loop1.inv", "contract", "invariant self.inv(),"),
+        ("next.loop1.fn", "contract",
          "  self.rem().len() <= old(self).rem().len(),\n"
          "  self.rem() == old(self).rem().skip(old(self).rem().len() - self.rem().len()),\n"
          "  ({ let (e0, s0, k0) = dec_next(old(self).ds(), old(self).rem());\n"
          "     let (e, s, k) = dec_next(self.ds(), self.rem());\n"
-         "     e0 == e && s0 == s && k0 == k + (old(self).rem().len() - self.rem().len()) }),"),
-        ("next.loop1.exit", "contract", "ensures self.rem().len() == 0"),
+         "     e0 == e && s0 == s && k0 == k + (old(self).rem().len() - self.rem().len()) }),", F),
+        ("next.loop1.exit", "contract", "ensures self.rem().len() == 0", F),
         ("next.loop1.dec", "contract", "decreases self.mappings_iter.decrease()->0"),
     ])
     it.loop_body_start("next", 1, "next.ghost.pre", "ghost", "let ghost pre = *self;")
     it.at("next", "before", "break;", "next.hint.none", "hint",
-          "proof { assert(self.rem() =~= pre.rem()); assert(pre.rem().len() == 0); }", optional=False)
+          "proof { assert(self.rem() =~= pre.rem()); assert(pre.rem().len() == 0); }", optional=False, tags=F)
     it.at("next", "after", r"Some\(\w+\)\s*=>\s*\{", "next.hint.some", "hint",
           "proof {\n"
           "  assert(pre.rem() =~= seq![*c] + self.rem());\n"
@@ -108,7 +110,7 @@ def build(u):
           "  assert(self.ds() == pre.ds());\n"
           "  lemma_b64_table();\n"
           "  assert(B64@[*c as int] == tbl(*c));\n"
-          "}", nth=1, regex=True)
+          "}", nth=1, regex=True, tags=F)
     it.at("next", "before", r"let\s+final_value\s*=", "next.hint.shr", "hint",
           "proof { let x = self.current_value; assert((x >> 1) > -0x4000_0000_0000_0001i64 && (x >> 1) < 0x4000_0000_0000_0000i64) by (bit_vector); }",
           regex=True)
